@@ -21,7 +21,8 @@
 (*     for long start vectors the recorder logs the projection             *)
 (*     (d0, dlast, mind = smallest difference, dev2 = max 2*|D[i]*(K-1) -  *)
 (*     i*(N-L)|) instead of D.                                             *)
-(*   [t |-> "built", ok]       SpectrumAnalyzer(...).plan() succeeded      *)
+(*   [t |-> "built", ok, same] SpectrumAnalyzer(...).plan() succeeded; its *)
+(*                             plan equals the scheduler's (f, r, L, K, D) *)
 (*   [t |-> "count", a, b]     bin counts of the vectorised / iterative    *)
 (*                             schedulers for one configuration            *)
 (* Every clause is named "Cxx:..." after the property it belongs to.       *)
@@ -127,6 +128,10 @@ Built ==
     /\ l <= Len(T.ev) /\ Ev.t = "built"
     /\ Check("C02:plan_built_through_analyzer", Ev.ok = 1)
     /\ Check("C02:at_least_one_bin", NumBins >= 1)
+    \* the analyzer only forwards the configuration: same frequencies (C03), same lengths and counts (C04), same starts (C02)
+    /\ Check("C02:analyzer_plan_is_the_scheduler_plan", Ev.ok = 0 \/ Ev.same = 1)
+    /\ Check("C03:analyzer_plan_is_the_scheduler_plan", Ev.ok = 0 \/ Ev.same = 1)
+    /\ Check("C04:analyzer_plan_is_the_scheduler_plan", Ev.ok = 0 \/ Ev.same = 1)
     /\ l' = l + 1 /\ UNCHANGED <<tid, prev>>
 
 (* bin counts of the vectorised and the iterative scheduler agree to 10 % (one bin below 10 bins) *)
